@@ -297,6 +297,12 @@ def join_state(a, b):
             if k in a and k in b and (a[k] & b[k]):
                 out[k] = a[k] & b[k]
             continue
+        if k[0] == "pend":
+            d = dict(a.get(k) or ())
+            d.update(dict(b.get(k) or ()))
+            if d:
+                out[k] = tuple(sorted(d.items()))
+            continue
         if k not in a or k not in b:
             # object (local) only known on one path: keep what is known
             out[k] = a.get(k, b.get(k))
@@ -659,6 +665,11 @@ class Interp:
 
     def const_of(self, e):
         e = unwrap(e)
+        if e.get("k") == "Cond":
+            v = self.eval_cond(e["c"])
+            if v is None:
+                return None
+            return self.const_of(e["then"] if v else e["else"])
         if e.get("k") == "Ref":
             if e.get("dk") == "param" and e["n"] in self.env:
                 return self.env[e["n"]]
@@ -1214,6 +1225,8 @@ class Interp:
         elif decl_obj is not None and k in ("Construct", "TempObj") and ccls in self.fam.classes:
             st = self.apply_call(decl_obj, n, st, n.get("ccls"), ctor=True)
         # arguments handed over by non-const reference / rvalue reference
+        if n.get("callee") in ("std::move", "std::forward"):
+            return st          # a cast; the call that receives the result decides what happens to the object
         for i, a in enumerate(args):
             t = pts[i] if i < len(pts) else ""
             if not self.fam.is_family_type(t):
@@ -1423,6 +1436,11 @@ def _event(self, n, st, base_init, decl_obj):
             st.pop(("rel", o, kind), None)
             if ok and n.get("a") and unwrap(n["a"][0]).get("k") == "Int":
                 st[("fs", o, kind)] = frozenset(st.get(("fs", o, kind), frozenset()) | {int(unwrap(n["a"][0])["v"])})
+            if org == "alloc" and e.get("a"):
+                # the size slot must be set to the same extent before the next exit
+                pend = dict(st.get(("pend", o, kind)) or ())
+                pend[sk] = (_norm_extent(self, e["a"][0]), e.get("i", 0), n.get("l"))
+                st[("pend", o, kind)] = tuple(sorted(pend.items()))
             return st
         return st
     if k == "OpCall" and n.get("op") == "=" and n.get("a") and vec_member(n["a"][0]):
@@ -1720,7 +1738,66 @@ def _event_idx(self, n, st, base_init, decl_obj):
     return _event_len(self, n, st, base_init, decl_obj)
 
 
-Interp.event = _event_idx
+def _accessor_modified_between(self, text, lo, hi):
+    """is a quantity named in the extent (an accessor like allocated_elements()) assigned between two points?"""
+    names = set(re.findall(r"\.(\w+?)(?:<[^()]*>)?\(\)", text))
+    for x in self.fn.nodes():
+        if x.get("i") is None or not (lo < x["i"] < hi):
+            continue
+        tgt = None
+        if x.get("k") == "Assign":
+            tgt = unwrap(x["lhs"])
+        elif x.get("k") == "Un" and x.get("op") in ("++", "--"):
+            tgt = unwrap(x["e"])
+        if tgt is not None and tgt.get("k") == "MCall" and tgt.get("n", "").lstrip("_") in {n.lstrip("_") for n in names}:
+            return tgt.get("n")
+    return None
+
+
+def _event_sizeslot(self, n, st, base_init, decl_obj):
+    """`O._elements_size.at(k) = E` / `[k] = E`: the recorded extent of slot k"""
+    if n.get("k") == "Assign" and n.get("op") == "=":
+        l = unwrap(n["lhs"])
+        tgt = None
+        if l.get("k") == "MCall" and l.get("n") in VEC_SLOT and size_member(l.get("obj")):
+            tgt = (size_member(l["obj"]), l.get("a") or [])
+        elif l.get("k") == "OpCall" and l.get("op") == "[]" and l.get("a") and size_member(l["a"][0]):
+            tgt = (size_member(l["a"][0]), l["a"][1:])
+        if tgt is not None:
+            (kind, b), idx = tgt
+            o = obj_id(b)
+            if o is None:
+                raise Unknown("size slot of an unnamed object assigned at line %s" % n.get("l"))
+            self.ensure(st, o, self.obj_type(b))
+            self.touched = True
+            sk = render(idx[0]) if idx else "?"
+            name = "%s._%s" % (o.split("#")[0], kind)
+            pend = dict(st.get(("pend", o, kind)) or ())
+            got = _norm_extent(self, n["rhs"])
+            if sk in pend:
+                want, at, line0 = pend.pop(sk)
+                mod = _accessor_modified_between(self, want, at, n.get("i", 0)) if want == got else None
+                if mod:
+                    self.ob("size-pairing", "%s/slot%s-reseat" % (name, sk), True,
+                            "undecided: %s is modified between the allocation and the recorded extent" % mod, n.get("l"))
+                else:
+                    ok = want == got
+                    self.ob("size-pairing", "%s/slot%s-reseat" % (name, sk), ok,
+                            "slot %s of %s was re-seated (line %s) to an array of %s entries; the size slot records %s%s" % (
+                                sk, name, line0, want, got, "" if ok else ": clone/convert/serialize size their copies from the recorded extent, so a copy gets a shorter array than "
+                                "the capacity it believes to have (heap overrun on the next append) or reads past the end"), n.get("l"))
+                if pend:
+                    st[("pend", o, kind)] = tuple(sorted(pend.items()))
+                else:
+                    st.pop(("pend", o, kind), None)
+            else:
+                self.ob("size-pairing", "%s/slot%s-set" % (name, sk), True,
+                        "undecided: size slot %s of %s set to %s without a re-seated array in this function" % (sk, name, got), n.get("l"))
+            return _event_idx(self, n, st, base_init, decl_obj)
+    return _event_idx(self, n, st, base_init, decl_obj)
+
+
+Interp.event = _event_sizeslot
 Interp.ptr_defs = _ptr_defs
 Interp.src_of_range = _src_of_range
 Interp.len_of_vec = _len_of_vec
@@ -1927,6 +2004,11 @@ def exit_obligations(it):
                 prev = out.get((rule, name))
                 if prev is None or (prev[0] and not ok):
                     out[(rule, name)] = (ok, det, line)
+                pend = st.get(("pend", o, kind))
+                if pend:
+                    for sk, (want, at, line0) in pend:
+                        out[("size-pairing", "%s/slot%s-reseat" % (name, sk))] = (False,
+                            "exit at line %s: slot %s of %s was re-seated (line %s) to an array of %s entries but the size slot was not updated" % (line, sk, name, line0, want), line)
                 # length agreement of V and V_size
                 ln = st.get(("len", o, kind))
                 if ln is not None and not fn.d.get("dtor"):
@@ -1950,3 +2032,279 @@ def show_len(l):
         return str(o)
     b = {"U": "an unknown number of"}.get(b, "len(%s)" % b.split(":", 1)[-1])
     return b if o == 0 else "%s%+d" % (b, o)
+
+
+# -------------------------------------------------------------------------------------------------
+# clone / assign aliasing tables and their composition (shared by C02 and C20)
+# -------------------------------------------------------------------------------------------------
+
+DOC_PHRASES = [
+    # (regex on the doxygen text of the enumerator, (indices, elements))
+    (r"^share index and data arrays$", ("shared", "shared")),
+    (r"^share index arrays, allocate new data array$", ("shared", "fresh")),
+    (r"^share index arrays, allocate new data array and copy content$", ("shared", "fresh+copy")),
+    (r"^allocate new index and data arrays and copy content$", ("fresh+copy", "fresh+copy")),
+    (r"^allocate new index and data arrays$", ("fresh", "fresh")),
+]
+
+
+def documented_clone_table():
+    """{mode: (value, indices, elements)} parsed from the enumerator comments in kernel/lafem/base.hpp"""
+    p = featlib.repo_path("kernel/lafem/base.hpp")
+    txt = open(p).read()
+    m = re.search(r"enum\s+class\s+CloneMode\s*\{(.*?)\}", txt, re.S)
+    if not m:
+        return None, "enum class CloneMode not found in kernel/lafem/base.hpp"
+    out = {}
+    val = -1
+    for line in m.group(1).splitlines():
+        mm = re.match(r"\s*(\w+)\s*(?:=\s*(\d+))?\s*,?\s*/\*\*<\s*(.*?)\s*\*/", line)
+        if not mm:
+            if line.strip():
+                return None, "unparsed enumerator line %r" % line.strip()
+            continue
+        val = int(mm.group(2)) if mm.group(2) else val + 1
+        doc = mm.group(3).strip().lower().rstrip(".")
+        cls = None
+        for rx, c in DOC_PHRASES:
+            if re.match(rx, doc):
+                cls = c
+        if cls is None:
+            return None, "documentation of CloneMode::%s (%r) is not one of the transcribed phrases" % (mm.group(1), doc)
+        out[mm.group(1)] = (val, cls[0], cls[1])
+    return out, None
+
+
+def classify(vs, flag, it, obj_kind, srcname):
+    """shared | fresh | fresh+copy | other(<why>) for the exit state of one pointer vector"""
+    if vs.own != "OWN" or flag != "F":
+        return "other(%r, flag %s)" % (vs, flag)
+    org = set(vs.origin)
+    if org == {"copy:" + srcname, "counted"}:
+        return "shared"
+    if org == {"alloc"}:
+        if vs.filled == {"copy:" + srcname}:
+            return "fresh+copy"
+        if not vs.filled:
+            return "fresh"
+    return "other(%r)" % (vs,)
+
+
+def targs(s):
+    """top-level template arguments of the last <...> group of s"""
+    if not s.endswith(">"):
+        return []
+    depth = 0
+    i = len(s) - 1
+    while i >= 0:
+        if s[i] == ">":
+            depth += 1
+        elif s[i] == "<":
+            depth -= 1
+            if depth == 0:
+                break
+        i -= 1
+    inner = s[i + 1:-1]
+    out, cur, depth = [], "", 0
+    for ch in inner:
+        if ch == "," and depth == 0:
+            out.append(cur.strip())
+            cur = ""
+            continue
+        if ch in "<(":
+            depth += 1
+        elif ch in ">)":
+            depth -= 1
+        cur += ch
+    if cur.strip():
+        out.append(cur.strip())
+    return out
+
+
+def extracted_tables(fam):
+    """-> (clone table {mode value: (indices, elements)} of the same-type Container::clone,
+           assign table {(sameDT, sameIT): {kind: shared|fresh+copy|...}}) extracted from the code; None entries on failure"""
+    doc, err = documented_clone_table()
+    ctab, atab = {}, {}
+    fns = [f for f in fam.functions() if f.name == "clone" and short(f.cls) == "Container" and len(f.params) == 2
+           and f.full.count("<") == f.cls.count("<")]
+    if doc and fns:
+        fn = fns[0]
+        for mode, (val, _, _) in doc.items():
+            it = Interp(fam, fn, env={fn.params[1]["n"]: val}).run()
+            st = None
+            for s_, _ in it.exits:
+                st = join_state(st, s_)
+            if it.unknown or st is None:
+                continue
+            fl = st.get(("flag", "this"))
+            ctab[val] = (classify(st[("this", "indices")], fl, it, "indices", fn.params[0]["n"]),
+                         classify(st[("this", "elements")], fl, it, "elements", fn.params[0]["n"]))
+    for fn in [f for f in fam.functions() if f.name == "assign" and short(f.cls) == "Container" and len(f.params) == 1]:
+        ca, fa = targs(fn.cls), targs(fn.full)
+        if len(ca) != 2 or len(fa) != 2:
+            continue
+        it = Interp(fam, fn).run()
+        st = None
+        for s_, _ in it.exits:
+            st = join_state(st, s_)
+        if it.unknown or st is None:
+            continue
+        fl = st.get(("flag", "this"))
+        atab[(ca[0] == fa[0], ca[1] == fa[1])] = {k: classify(st[("this", k)], fl, it, k, fn.params[0]["n"]) for k in ("elements", "indices")}
+    return ctab, atab
+
+
+def cross_clone_rules(ck, fam, seen_fail, rule="C02.clone-cross-type"):
+    doc, err = documented_clone_table()
+    if doc is None:
+        ck.incomplete(rule, err)
+        return
+    ctab, atab = extracted_tables(fam)
+    fns = [f for f in fam.functions() if f.name == "clone" and short(f.cls) == "Container" and len(f.params) == 2
+           and f.full.count("<") > f.cls.count("<")]
+    combos = set()
+    for fn in fns:
+        ca, fa = targs(fn.cls), targs(fn.full)
+        if len(ca) != 2 or len(fa) != 2:
+            ck.incomplete(rule, "template arguments of %s not recognised" % fn.full)
+            continue
+        same = (ca[0] == fa[0], ca[1] == fa[1])
+        combos.add(same)
+        src = "%s#%s" % (fn.params[0]["n"], fn.params[0]["d"])
+        modep = fn.params[1]["n"]
+        for mode, (val, want_i, want_e) in sorted(doc.items(), key=lambda kv: kv[1][0]):
+            it = Interp(fam, fn, env={modep: val})
+            rel_ = {}          # object -> {kind: 'shared' (aliases the source) | 'fresh' | 'none'}
+            problems = []
+
+            def call_effect(n):
+                nm = n.get("n")
+                o = obj_id(n.get("obj")) if n.get("obj") is not None else "this"
+                if o is None or short(n.get("ccls", "")) != "Container":
+                    return False
+                args = n.get("a") or []
+                a0 = obj_id(args[0]) if args else None
+                if nm == "assign" and len(args) == 1 and a0 is not None:
+                    callee = fam.callee_fn(fn, n)
+                    if callee is None:
+                        problems.append("callee of assign not found")
+                        return True
+                    c2, f2 = targs(callee.cls), targs(callee.full)
+                    tab = atab.get((c2[0] == f2[0], c2[1] == f2[1])) if len(c2) == 2 and len(f2) == 2 else None
+                    if tab is None:
+                        problems.append("no extracted sharing table for %s" % callee.full)
+                        return True
+                    srcrel = rel_.get(a0, {"elements": "shared", "indices": "shared"} if a0 == src else None)
+                    if srcrel is None:
+                        problems.append("assign from an untracked object")
+                        return True
+                    rel_[o] = {k: (srcrel[k] if tab[k] == "shared" else "fresh" if tab[k].startswith("fresh") else "?") for k in ("elements", "indices")}
+                    return True
+                if nm == "clone" and len(args) == 2 and a0 is not None:
+                    m = it.const_of(args[1])
+                    if m is None or m not in ctab:
+                        problems.append("clone with a mode that is not a constant under clone_mode == %s" % mode)
+                        return True
+                    srcrel = rel_.get(a0, {"elements": "shared", "indices": "shared"} if a0 == src else None)
+                    if srcrel is None:
+                        problems.append("clone from an untracked object")
+                        return True
+                    ci, ce = ctab[m]
+                    rel_[o] = {"indices": srcrel["indices"] if ci == "shared" else "fresh" if ci.startswith("fresh") else "?",
+                               "elements": srcrel["elements"] if ce == "shared" else "fresh" if ce.startswith("fresh") else "?"}
+                    return True
+                if nm == "move" and len(args) == 1 and a0 is not None:
+                    srcrel = rel_.get(a0)
+                    if srcrel is None:
+                        problems.append("move from an untracked object")
+                        return True
+                    rel_[o] = dict(srcrel)
+                    return True
+                if nm in ("clear",):
+                    rel_[o] = {"elements": "none", "indices": "none"}
+                    return True
+                return False
+
+            def ex(n):
+                """returns False when the path has returned"""
+                k = n.get("k")
+                if k == "Block":
+                    for s_ in n.get("s", []):
+                        if not ex(s_):
+                            return False
+                    return True
+                if k == "Null_":
+                    return True
+                if k == "Decl":
+                    for v in n.get("vars", []):
+                        t = short(fn.type(v.get("t")))
+                        if t == "Container" and not v.get("ref"):
+                            rel_["%s#%s" % (v["n"], v["d"])] = {"elements": "none", "indices": "none"}
+                        elif v.get("init") is not None and any(is_call(x) and short(x.get("ccls", "")) == "Container" and not x.get("cconst") for x in walk(v["init"])):
+                            problems.append("declaration %s at line %s" % (v["n"], n.get("l")))
+                    return True
+                if k == "If":
+                    if n.get("constexpr"):
+                        th, el = n.get("then"), n.get("else")
+                        if th is not None and th.get("k") == "Null_":
+                            return ex(el) if el is not None else True
+                        if el is not None and el.get("k") == "Null_":
+                            return ex(th)
+                        c = n["c"]
+                        cv = it.eval_cond(c)
+                        if cv is None and c.get("k") == "Ref" and c.get("v") is not None:
+                            cv = bool(int(c["v"]))
+                        if el is None and cv is True:
+                            return ex(th)
+                        if el is None and cv is False:
+                            return True
+                    v = it.eval_cond(n["c"])
+                    if v is True:
+                        return ex(n["then"])
+                    if v is False:
+                        return ex(n["else"]) if n.get("else") is not None else True
+                    problems.append("condition %s not decided by clone_mode == %s" % (render(n["c"])[:60], mode))
+                    return False
+                if k == "Return":
+                    return False
+                if k == "MCall":
+                    if call_effect(n):
+                        return True
+                    if n.get("cconst") or short(n.get("ccls", "")) != "Container":
+                        return True
+                    problems.append("call %s at line %s" % (render(n)[:60], n.get("l")))
+                    return True
+                if is_call(n) and n.get("callee") in ("FEAT::assertion",):
+                    return True
+                if is_call(n) and n.get("noreturn"):
+                    return False
+                problems.append("statement %s at line %s" % (render(n)[:60], n.get("l")))
+                return True
+
+            ex(fn.body)
+            got = rel_.get("this")
+            combo = "%s,%s" % ("sameDT" if same[0] else "diffDT", "sameIT" if same[1] else "diffIT")
+            if problems or got is None:
+                ck.incomplete(rule, "%s with clone_mode == %s: %s" % (fkey(fn), mode, "; ".join(problems) or "result never defined"))
+                continue
+            for kind, want in (("indices", want_i), ("elements", want_e)):
+                sub = "Container::clone<DT2,IT2>/CloneMode::%s/%s/%s" % (mode, combo, kind)
+                if want == "shared":
+                    ck.ob(rule, sub, True, "documented as shared: no independence required (extracted: %s)" % got[kind], fn.file, fn.line, trivial=True)
+                    continue
+                ok = got[kind] == "fresh"
+                if not ok:
+                    if (rule, sub) in seen_fail:
+                        continue
+                    seen_fail.add((rule, sub))
+                ck.ob(rule, sub, ok,
+                      "%s, clone_mode == %s: documented %s arrays %s; composed from assign (%s) and clone/move: the result's %s arrays are %s%s" % (
+                          fn.full, mode, kind, want, atab.get(same), kind, got[kind],
+                          "" if ok else " with the source -> the clone is not value-independent"),
+                      fn.file, fn.line, sample={"function": fn.full, "mode": mode, "array": kind, "documented": want, "composed": got[kind]})
+    need = {(True, False), (False, True), (False, False)}
+    if not need <= combos:
+        ck.incomplete(rule, "instantiations of the templated Container::clone missing for (same DT, same IT) in %s" % sorted(need - combos))
+
+
